@@ -153,6 +153,9 @@ def _run(ev, work, thorough):
         raise T.TLCError("Categorical last-dictionary-wins variant must violate LabelsPreserved")
     ev.add_tlc("Categorical, RemapCodes=FALSE (as found): LabelsPreserved violated", r0)
     cases, cres = C.export_cases(work, 3 if thorough else 2, 2)
+    if thorough:
+        # every sequence of one or two batches, every fourth of the three-batch sequences
+        cases = [c for i, c in enumerate(cases) if len(c["rgs"]) < 3 or i % 4 == 0]
     ev.add_tlc("CategoricalMC export: batch sequences with contract and mechanism prediction", cres, cases=len(cases))
     jobs, cr = C.run_cases(cases, work, ("simple", "hive"))
     mech_disagree = 0
